@@ -3,63 +3,7 @@
    prints one observation per line in exactly the harness's format. *)
 open Model
 
-(* ---------- conversions between OCaml values and extracted numbers ---------- *)
-let rec pos_of_int n =
-  if n = 1 then XH else if n land 1 = 0 then XO (pos_of_int (n lsr 1)) else XI (pos_of_int (n lsr 1))
-let z_of_int n = if n = 0 then Z0 else if n > 0 then Zpos (pos_of_int n) else Zneg (pos_of_int (-n))
-let z10 = z_of_int 10
-
-(* decimal string -> Z using extracted arithmetic (values beyond OCaml's 63-bit ints) *)
-let z_of_string s =
-  let neg = String.length s > 0 && s.[0] = '-' in
-  let i0 = if neg || (String.length s > 0 && s.[0] = '+') then 1 else 0 in
-  let acc = ref Z0 in
-  for i = i0 to String.length s - 1 do
-    let c = s.[i] in
-    if c < '0' || c > '9' then failwith ("bad integer " ^ s);
-    acc := Z.add (Z.mul !acc z10) (z_of_int (Char.code c - 48))
-  done;
-  if neg then Z.opp !acc else !acc
-
-let rec int_of_pos = function XH -> 1 | XO p -> 2 * int_of_pos p | XI p -> 2 * int_of_pos p + 1
-let int_of_z = function Z0 -> 0 | Zpos p -> int_of_pos p | Zneg p -> - (int_of_pos p)
-
-let string_of_z z =
-  let neg, a = (match z with Zneg p -> true, Zpos p | _ -> false, z) in
-  if a = Z0 then "0" else begin
-    let b = Buffer.create 24 in
-    let cur = ref a in
-    while !cur <> Z0 do
-      let (q, r) = Z.div_eucl !cur z10 in
-      Buffer.add_char b (Char.chr (48 + int_of_z r));
-      cur := q
-    done;
-    let s = Buffer.contents b in
-    let n = String.length s in
-    let rev = String.init n (fun i -> s.[n - 1 - i]) in
-    (if neg then "-" else "") ^ rev
-  end
-
-let byte_tab : byte array = Array.init 256 (fun i -> zb (z_of_int i))
-let int_of_byte (b : byte) : int = int_of_z (bz b)
-
-let unhex s : byte list =
-  if s = "-" || s = "" then [] else begin
-    let n = String.length s / 2 in
-    let hv c = match c with
-      | '0'..'9' -> Char.code c - 48 | 'a'..'f' -> Char.code c - 87 | 'A'..'F' -> Char.code c - 55
-      | _ -> failwith "bad hex" in
-    List.init n (fun i -> byte_tab.(hv s.[2*i] * 16 + hv s.[2*i+1]))
-  end
-
-let hx (l : byte list) : string =
-  if l = [] then "-" else
-    String.concat "" (List.map (fun b -> Printf.sprintf "%02x" (int_of_byte b)) l)
-
-let parse_stack s : z list option =
-  if s = "nil" then None
-  else if s = "-" then Some []
-  else Some (List.map z_of_string (String.split_on_char ',' s))
+open Driver_fp.Conv
 
 let stack_or_empty s = match parse_stack s with None -> [] | Some l -> l
 
@@ -207,6 +151,8 @@ let run_case (f : string array) : string =
   | _ -> (match Driver_fp.run_case f with Some r -> r | None -> Driver2.run_case f)
 
 let () =
+  Driver2.handler_of := mk_handler;
+  Driver2.handler_obs_ref := handler_obs;
   let out = Buffer.create (1 lsl 16) in
   (try
      while true do
